@@ -91,6 +91,120 @@ func faultKindsFor(ev simrt.Ev, writeHandles map[string]bool) (kinds []simrt.Fau
 	return nil, "", false
 }
 
+// batteryWorld is a small fixed world (no randomness) on which the first case
+// of shard 0 runs the WHOLE catalogue: every flag fault, every content fault at
+// fixed offsets, every defect kind under every wrapper at a property position, at
+// a definition, an array-item and a branch position, each $ref defect as an
+// allOf/anyOf branch. A complete pass costs ~250 runs (about a second) and does
+// not depend on the seed, so the basic must-fail cells are checked on every run.
+func batteryWorld() (*World, []string) {
+	str := Obj{{"type", "string"}}
+	t1 := &SFile{Tag: "t1", Dir: "b", Base: "t1f.json", ID: "https://example.com/t1", RootObj: true, Defs: []string{"T1Da"}}
+	t1.Doc = Obj{{"$id", t1.ID}, {"type", "object"}, {"properties", Obj{{"mk_t1", str}, {"t1p1", Obj{{"type", "integer"}, {"minimum", 0}}}}},
+		{"$defs", Obj{{"T1Da", Obj{{"type", "object"}, {"properties", Obj{{"mk_t1_T1Da", str}}}}}}}}
+	t0 := &SFile{Tag: "t0", Dir: "a", Base: "t0f.json", ID: "https://example.com/t0", RootObj: true, Defs: []string{"T0Da"}}
+	t0.Doc = Obj{{"$id", t0.ID}, {"type", "object"},
+		{"properties", Obj{
+			{"mk_t0", str},
+			{"t0p1", str},
+			{"t0p2", Obj{{"type", "array"}, {"items", Obj{{"type", "integer"}}}}},
+			{"t0p3", Obj{{"type", "object"}, {"properties", Obj{{"t0p4", str}}}}},
+			{"t0p5", Obj{{"allOf", []any{Obj{{"type", "object"}, {"properties", Obj{{"t0b1", str}}}}, Obj{{"$ref", "#/$defs/T0Da"}}}}}},
+			{"t0p6", Obj{{"anyOf", []any{Obj{{"type", "object"}, {"properties", Obj{{"t0b2", str}}}}, Obj{{"type", "object"}, {"properties", Obj{{"t0b3", str}}}}}}}},
+			{"t0r7", Obj{{"$ref", "../b/t1f.json"}}},
+			{"t0r8", Obj{{"$ref", "../b/t1f.json#/$defs/T1Da"}}},
+		}},
+		{"required", []any{"t0p1"}},
+		{"$defs", Obj{{"T0Da", Obj{{"type", "object"}, {"properties", Obj{{"mk_t0_T0Da", str}, {"t0p9", Obj{{"type", "number"}}}}}}}}}}
+	w := &World{Root: "/w", Cwd: "/w", Files: []*SFile{t0, t1}, Opts: Options{Package: "example.com/m/main", Output: "out/gen.go"}}
+	w.Extra = append(w.Extra, simrt.Node{Path: "/w/out/gen.go", Kind: "f", Data: []byte("// OLD CONTENT\n")})
+	return w, []string{"b/t1f.json", "a/t0f.json"}
+}
+
+func (p c18) battery(env *Env) (*Case, []*Out) {
+	w, args := batteryWorld()
+	c := &Case{Prop: "C18"}
+	meta := c18Meta{OutAbs: []string{"/w/out/gen.go"}}
+	var outs []*Out
+	add := func(label string, spec simrt.Spec, mr c18Run) *Out {
+		c.Runs = append(c.Runs, Run{Label: label, Spec: spec})
+		meta.Runs = append(meta.Runs, mr)
+		o := env.Exec(&c.Runs[len(c.Runs)-1].Spec)
+		outs = append(outs, o)
+		return o
+	}
+	add("unmodified", w.Spec("", nil, args), c18Run{Kind: "valid", Ref: -1})
+	for _, k := range flagFaultKinds {
+		buildFlagFault(w, args, k, add, "")
+	}
+	t0 := w.Files[0]
+	for _, k := range contentFaultKinds {
+		switch k {
+		case "torn", "flip":
+			for _, frac := range []int{0, 250, 500, 750, 999} {
+				buildContentFault(w, args, t0, k, frac, 0x20, "", "", add, "")
+			}
+		case "garbage":
+			for _, g := range garbageChoices {
+				buildContentFault(w, args, t0, k, 0, 0, g, "", add, "")
+			}
+		case "null-subschema":
+			for _, np := range nullPositions {
+				buildContentFault(w, args, t0, k, 0, 0, "", np, add, "")
+			}
+		default:
+			buildContentFault(w, args, t0, k, 0, 0, "", "", add, "")
+		}
+	}
+	sites := collectSites(t0.Doc)
+	seenClass := map[string]bool{}
+	for _, s := range sites {
+		if seenClass[s.class] {
+			continue
+		}
+		seenClass[s.class] = true
+		for _, k := range defectKinds {
+			if strings.HasPrefix(s.class, "refbranch") {
+				if !strings.HasPrefix(k, "ref-") {
+					continue
+				}
+				for _, at := range []int{0, 1, 2} {
+					buildDefect(w, args, t0, s, k, "none", at, add, "")
+				}
+				continue
+			}
+			for _, wr := range defectWraps[1:] {
+				buildDefect(w, args, t0, s, k, wr, 0, add, "")
+			}
+		}
+	}
+	c.Meta, _ = json.Marshal(meta)
+	env.Stats.Counters["battery_runs"] += len(c.Runs)
+	return c, outs
+}
+
+// Battery (shard 0 only, outside rapid: there is nothing to draw or shrink).
+func (p c18) Battery(env *Env) (*Case, []*Out) { return p.battery(env) }
+
+// Slice keeps the runs idx of a case (used to cut a battery violation down to the
+// unmodified run plus the offending one).
+func (p c18) Slice(c *Case, idx []int) *Case {
+	var meta c18Meta
+	_ = json.Unmarshal(c.Meta, &meta)
+	nc := &Case{Prop: c.Prop}
+	nm := c18Meta{OutAbs: meta.OutAbs}
+	for _, i := range idx {
+		nc.Runs = append(nc.Runs, c.Runs[i])
+		mr := meta.Runs[i]
+		if mr.Ref >= 0 {
+			mr.Ref = 0
+		}
+		nm.Runs = append(nm.Runs, mr)
+	}
+	nc.Meta, _ = json.Marshal(nm)
+	return nc
+}
+
 func (p c18) Gen(t *rapid.T, env *Env) (*Case, []*Out) {
 	scenario := rapid.SampledFrom([]string{"env", "env", "env", "content", "defect", "defect", "defect", "flags", "recursive", "stdin", "odd", "odd"}).Draw(t, "scenario")
 	var w *World
@@ -142,9 +256,13 @@ func (p c18) Gen(t *rapid.T, env *Env) (*Case, []*Out) {
 		// the middle of a stream (EIO after k bytes, body cut after k bytes)
 		chunks := rapid.SampledFrom([][]int{nil, nil, {64}, {200}, {512}, {33, 7}}).Draw(t, "envchunks")
 		baseSpec := w.Spec
+		// and the whole case runs under one drawn map order, so that e.g. which output file
+		// is written first (Sources() is a map) varies between cases
+		mapDefault := rapid.SampledFrom([]string{"", "", "reverse", "rot"}).Draw(t, "envmaporder")
 		wspec := func(prefix string, ko *KeyOrder, a []string) simrt.Spec {
 			sp := baseSpec(prefix, ko, a)
 			sp.Chunks = chunks
+			sp.MapDefault = mapDefault
 			return sp
 		}
 		spec0 := wspec("", nil, args)
@@ -156,7 +274,11 @@ func (p c18) Gen(t *rapid.T, env *Env) (*Case, []*Out) {
 			// -v only adds progress lines on stderr: exit class, stdout and files must not change
 			wv := *w
 			wv.Opts.Verbose = true
-			add("verbose", func() simrt.Spec { sp := wv.Spec("", nil, args); sp.Chunks = chunks; return sp }(), c18Run{Kind: "verbose", Ref: 0, Feature: feature})
+			add("verbose", func() simrt.Spec {
+				sp := wv.Spec("", nil, args)
+				sp.Chunks, sp.MapDefault = chunks, mapDefault
+				return sp
+			}(), c18Run{Kind: "verbose", Ref: 0, Feature: feature})
 		}
 		writeHandles := map[string]bool{}
 		for _, ev := range o0.Res.Trace {
@@ -274,6 +396,10 @@ func argFiles(w *World, args []string) []*SFile {
 	return fs
 }
 
+var contentFaultKinds = []string{"torn", "empty", "flip", "dir", "garbage", "null-subschema", "ref-hash", "missing-arg", "dangling-symlink"}
+var garbageChoices = []string{"\x00\x01\x02", "<html></html>", "[1,2,3]", "\"str\"", "42", "null", "{", "}{", "{\"type\":}", "\xff\xfe{}", "- a\n- b\n", "a: [\n"}
+var nullPositions = []string{"prop", "def", "item", "anyOf", "allOf", "additionalProperties"}
+
 func genContentFault(t *rapid.T, w *World, args []string, add addFn, feature string) {
 	afs := argFiles(w, args)
 	if len(afs) == 0 {
@@ -282,9 +408,18 @@ func genContentFault(t *rapid.T, w *World, args []string, add addFn, feature str
 	// the fault-free run of the unmodified world, as a witness that the world is fine
 	add("unmodified", w.Spec("", nil, args), c18Run{Kind: "valid", Ref: -1, Feature: feature})
 	f := afs[rapid.IntRange(0, len(afs)-1).Draw(t, "cfile")]
+	kind := rapid.SampledFrom(append([]string{"torn"}, contentFaultKinds...)).Draw(t, "ckind")
+	frac := rapid.IntRange(0, 999).Draw(t, "cfrac")
+	mask := rapid.SampledFrom([]int{0x01, 0x20, 0x80, 0xff}).Draw(t, "flipmask")
+	garbage := rapid.SampledFrom(garbageChoices).Draw(t, "garbage")
+	nullpos := rapid.SampledFrom(nullPositions).Draw(t, "nullpos")
+	buildContentFault(w, args, f, kind, frac, mask, garbage, nullpos, add, feature)
+}
+
+// buildContentFault damages file f: frac (0..999) positions the cut / flip.
+func buildContentFault(w *World, args []string, f *SFile, kind string, frac, mask int, garbage, nullpos string, add addFn, feature string) {
 	abs := filepath.Join(w.Root, f.Rel())
 	data := subst(f.Bytes(nil), "", w.Root)
-	kind := rapid.SampledFrom([]string{"torn", "torn", "empty", "flip", "dir", "garbage", "null-subschema", "ref-hash", "missing-arg", "dangling-symlink"}).Draw(t, "ckind")
 	spec := w.Spec("", nil, args)
 	replace := func(nd simrt.Node) {
 		for i := range spec.FS {
@@ -299,7 +434,7 @@ func genContentFault(t *rapid.T, w *World, args []string, add addFn, feature str
 		if len(data) < 3 {
 			return
 		}
-		cut := rapid.IntRange(1, len(data)-2).Draw(t, "cut")
+		cut := 1 + frac*(len(data)-2)/1000
 		replace(simrt.Node{Path: abs, Kind: "f", Data: data[:cut]})
 		if !f.YAML {
 			mr.What = "torn-json"
@@ -314,17 +449,17 @@ func genContentFault(t *rapid.T, w *World, args []string, add addFn, feature str
 		if len(data) == 0 {
 			return
 		}
-		i := rapid.IntRange(0, len(data)-1).Draw(t, "flipat")
+		i := frac * len(data) / 1000
 		d := append([]byte(nil), data...)
-		d[i] ^= byte(rapid.SampledFrom([]int{0x01, 0x20, 0x80, 0xff}).Draw(t, "flipmask"))
+		d[i] ^= byte(mask)
 		replace(simrt.Node{Path: abs, Kind: "f", Data: d})
 	case "dir":
 		replace(simrt.Node{Path: abs, Kind: "d"})
 		mr.MustFail = true
 	case "garbage":
-		replace(simrt.Node{Path: abs, Kind: "f", Data: []byte(rapid.SampledFrom([]string{"\x00\x01\x02", "<html></html>", "[1,2,3]", "\"str\"", "42", "null", "{", "}{", "{\"type\":}", "\xff\xfe{}", "- a\n- b\n", "a: [\n"}).Draw(t, "garbage"))})
+		replace(simrt.Node{Path: abs, Kind: "f", Data: []byte(garbage)})
 	case "null-subschema":
-		pos := rapid.SampledFrom([]string{"prop", "def", "item", "anyOf", "allOf", "additionalProperties"}).Draw(t, "nullpos")
+		pos := nullpos
 		doc := cloneObj(f.Doc)
 		switch pos {
 		case "prop":
@@ -613,11 +748,19 @@ func genDefect(t *rapid.T, w *World, args []string, add addFn, feature string) {
 	if strings.HasPrefix(s.class, "refbranch") {
 		kind = rapid.SampledFrom([]string{"ref-missing-def", "ref-missing-file"}).Draw(t, "dkindref")
 	}
-	val := defectValue(kind)
-	// wrap the defect so that it sits at some depth / inside a combinator branch
 	wrap := "none"
 	if !strings.HasPrefix(s.class, "refbranch") {
 		wrap = rapid.SampledFrom(defectWraps).Draw(t, "dwrap")
+	}
+	branchAt := rapid.IntRange(0, 8).Draw(t, "branchat")
+	buildDefect(w, args, f, s, kind, wrap, branchAt, add, feature)
+}
+
+// buildDefect injects one catalogue defect of the given kind, wrapped as asked,
+// at site s of file f and adds the run.
+func buildDefect(w *World, args []string, f *SFile, s site, kind, wrap string, branchAt int, add addFn, feature string) {
+	val := defectValue(kind)
+	if !strings.HasPrefix(s.class, "refbranch") {
 		if !strings.HasPrefix(s.class, "prop") && !strings.HasPrefix(s.class, "branchprop") && (strings.HasPrefix(wrap, "anyOf") || strings.HasPrefix(wrap, "allOf")) {
 			// a type-less combinator at a declared-type position (definition, array items) is
 			// mapped to interface{} without being visited: not "an element that cannot be
@@ -631,16 +774,14 @@ func genDefect(t *rapid.T, w *World, args []string, add addFn, feature string) {
 	}
 	var doc Obj
 	switch {
-	case s.class == "def":
+	case strings.HasPrefix(s.class, "def"):
 		doc = withDef(cloneObj(f.Doc), strings.ToUpper(f.Tag[:1])+f.Tag[1:]+"Zbad", val)
 	case strings.HasPrefix(s.class, "refbranch"):
 		doc = setAt(f.Doc, s.path, func(v any) any {
 			a := append([]any{}, v.([]any)...)
-			i := rapid.IntRange(0, len(a)).Draw(t, "branchat")
+			i := branchAt % (len(a) + 1)
 			return append(a[:i:i], append([]any{val}, a[i:]...)...)
 		}).(Obj)
-	case strings.HasPrefix(s.class, "def"):
-		doc = withDef(cloneObj(f.Doc), strings.ToUpper(f.Tag[:1])+f.Tag[1:]+"Zbad", val)
 	case strings.HasPrefix(s.class, "item"):
 		doc = setAt(f.Doc, s.path, func(v any) any { return append(Obj{}, v.(Obj)...).Set("items", val) }).(Obj)
 	default:
@@ -658,14 +799,19 @@ func genDefect(t *rapid.T, w *World, args []string, add addFn, feature string) {
 	add("defect "+kind+"@"+s.class, spec, c18Run{Kind: "defect", What: kind, Pos: s.class, MustFail: true, Ref: -1, Feature: feature})
 }
 
+var flagFaultKinds = []string{"mapping-no-equals", "mapping-no-equals-output", "mapping-no-equals-root", "unknown-flag", "no-package", "no-args", "missing-file-arg", "flag-missing-value", "same-file-two-packages"}
+
 func genFlagFault(t *rapid.T, w *World, args []string, add addFn, feature string) {
-	kind := rapid.SampledFrom([]string{"mapping-no-equals", "mapping-no-equals-output", "mapping-no-equals-root", "unknown-flag", "no-package", "no-args", "missing-file-arg", "flag-missing-value", "same-file-two-packages"}).Draw(t, "flagkind")
+	kind := rapid.SampledFrom(flagFaultKinds).Draw(t, "flagkind")
+	buildFlagFault(w, args, kind, add, feature)
+}
+
+func buildFlagFault(w *World, args []string, kind string, add addFn, feature string) {
 	w2 := *w
 	o := w.Opts
 	a := args
 	switch kind {
 	case "mapping-no-equals":
-		o.SchemaPkg = append(append([]Pair{}, o.SchemaPkg...), Pair{"https://example.com/zz", ""})
 		o.RawTrailing = []string{"--schema-package", "https://example.com/nomapping"}
 	case "mapping-no-equals-output":
 		o.RawTrailing = []string{"--schema-output", "justafile.go"}
@@ -691,9 +837,6 @@ func genFlagFault(t *rapid.T, w *World, args []string, add addFn, feature string
 		o.SchemaPkg = []Pair{{w.Files[0].ID, "example.com/m/pa"}, {w.Files[1].ID, "example.com/m/pb"}}
 		o.SchemaOut = []Pair{{w.Files[0].ID, "out/same.go"}, {w.Files[1].ID, "out/same.go"}}
 		a = []string{w.ArgFor(w.Files[0], "rel"), w.ArgFor(w.Files[1], "rel")}
-	}
-	if kind == "mapping-no-equals" {
-		o.SchemaPkg = w.Opts.SchemaPkg
 	}
 	w2.Opts = o
 	add("flag "+kind, w2.Spec("", nil, a), c18Run{Kind: "flag", What: kind, MustFail: true, Ref: -1, Feature: feature})
